@@ -264,7 +264,7 @@ func TestVerif_C08(t *testing.T) {
 		layouts = append(layouts, c08RandomLayout(r))
 		names = append(names, fmt.Sprintf("random%d", i))
 	}
-	budget := kit.Pick(1200, 1<<30) // replays in the quick tier
+	budget := kit.Pick(900, 1<<30) // replays in the quick tier
 	stride := 1
 	if len(hists)*len(layouts) > budget {
 		stride = (len(hists)*len(layouts) + budget - 1) / budget
@@ -272,11 +272,13 @@ func TestVerif_C08(t *testing.T) {
 	n := 0
 	for hi, h := range hists {
 		for li, layout := range layouts {
+			if kit.Thorough() && li != 0 && li != 1+hi%nrand {
+				continue // thorough: every history with the fixed layout and one random layout (rotating)
+			}
 			n++
 			if (n+int(kit.Seed()))%stride != 0 {
 				continue
 			}
-			_ = hi
 			rec := c08Rec{Kind: "hist", Layout: names[li], Files: layout, Blobs: c08Blobs, Steps: []c08Step{}}
 			be := mem.New()
 			writer, reader := open(be), open(be)
